@@ -124,7 +124,12 @@ impl<'a> NumberPartsFmt<'a> {
                 },
                 'u' => {
                     if let Some(ref unit) = parts.raw_unit {
-                        if unit.is_dimensionless() {
+                        // A pure number as conversion target still has its
+                        // constant to show (`100 -> 5` is `20 * 5`).
+                        if unit.is_dimensionless()
+                            && parts.factor.is_none()
+                            && parts.divfactor.is_none()
+                        {
                             continue;
                         }
                         let mut frac = vec![];
